@@ -124,6 +124,22 @@ pub fn replay() {
     let seed = env_u64("VERIF_SEED", 1);
     let al = v::no_aliases();
     let mut sum = Summary::default();
+    // systematic stratum: "consistent renaming of alpha letters (Greek or Latin)" - every letter of both alphabets, plain and inverted
+    {
+        let letters: Vec<char> = ('α'..='ω').chain('A'..='Z').collect();
+        let shapes: [&dyn Fn(char) -> String; 3] = [&|x| format!("[+cons, {x}voi] > [{x}cont]"), &|x| format!("C > [-{x}voi] / [{x}nas]_"), &|x| format!("ə$ > * / P:[-nas, {x}PLACE]_N:[-{x}PLACE]")];
+        for shape in shapes {
+            for w in ["ta.na", "an.ta", "ma.da", "pə.no", "kə.ŋa"] {
+                let canon = outcome(&shape('A'), w, &[], &[]);
+                for x in &letters {
+                    sum.vectors += 1; sum.nontrivial += 1; sum.count("alpha_letter_sweep", 1);
+                    let r = shape(*x);
+                    let o = outcome(&r, w, &[], &[]);
+                    if o == canon { sum.agree += 1; } else { sum.mismatch(json!({"kind": "alpha letter", "canonical": shape('A'), "respelled": r, "word": w, "canonical_result": canon, "respelled_result": o})); }
+                }
+            }
+        }
+    }
     replay_stdin(|vec| {
         let kind = vec["kind"].as_str().unwrap();
         if kind == "feat" {
